@@ -46,3 +46,20 @@ func (f *File) simLock(method uint64, write bool) {
 		return false
 	})
 }
+
+// simLockMu is called right before clientConn's own mutex (the one that protects
+// inflight) is taken, with the same contract as File.simLock. It is what makes a
+// yield point inside broadcastErr's critical section (cc.bcast.end) safe.
+func (c *clientConn) simLockMu(key uint64) {
+	h := simLockHook
+	if h == nil {
+		return
+	}
+	h("cc.mu", key, func() bool {
+		if c.Mutex.TryLock() {
+			c.Mutex.Unlock()
+			return true
+		}
+		return false
+	})
+}
